@@ -33,6 +33,9 @@ Definition hyp_report (m : module) : json :=
         ("calls_closed", JBool (calls_closedb m (used_functions m)));
         ("calls_in_range", JBool (calls_in_rangeb m));
         ("no_global_removed", JBool (all_true (used_globals m (used_functions m))));
+        (* hypothesis gexprs_closedb of c13_compact_unused_sound (Passes/CompactUnusedFull.v), restated here so that
+           the tool does not depend on the proof files *)
+        ("gexprs_closed", JBool (forallb (fun e => match e with EGlobalVariable _ => false | _ => true end) (m_global_exprs m)));
         ("lazy_funcs", jn (count_lazy m))].
 
 Definition opt_value (j : json) : option (option value) :=
